@@ -8,7 +8,7 @@ From Coq Require Import List NArith Arith.
 Import ListNotations.
 From YP Require Import Base.Str Lang.Ast Lang.Lexer Lang.Cst Lang.Parser Lang.ParserSound Lang.Unquote Lang.Front
   Lang.ParserMono Lang.ParserComplete Lang.ParserCanon Lang.ParserFuel Lang.ParserNorm Lang.FrontSpec
-  Comp.IR Comp.CompileClause Lang.FrontCompile.
+  Comp.IR Comp.NumeralName Comp.CompileClause Lang.FrontCompile.
 
 (* The scan of every token rule computes exactly the longest prefix in the rule's language
    (rdef_lang is the specification of the four kinds of rule, rule_def the table of prolog.g4). *)
